@@ -21,8 +21,13 @@ def plan(tier):
               (tm.Cfg('sim-lock-n3', [1, 1, 2], [1], max_round=3, max_height=2, nbyz=1, budget=-1, own_first=False,
                       useful_only=True), n, 110)]
     p.rule_extra = 'Lock-related goals: a lock is taken, released by a later polka, renewed, and the locked block is proposed/prevoted.'
-    p.live_runs = [(tm.Cfg('trace-n4', [1, 1, 1, 1], [2], max_round=6, max_height=4, nbyz=0, budget=0, own_first=False,
-                           useful_only=False, properties=[]), 3, 2 if quick else 8)]
+    byzcfg = tm.Cfg('trace-n4-byz', [1, 1, 1, 1], [1], max_round=10, max_height=4, nbyz=2, budget=-1, own_first=False,
+                    useful_only=False, properties=[])
+    byzcfg.byz_active = True
+    byzcfg.scale = 8
+    p.live_runs = [(tm.Cfg('trace-n4', [1, 1, 1, 1], [2], max_round=10, max_height=4, nbyz=0, budget=0, own_first=False,
+                           useful_only=False, properties=[]), 3, 1 if quick else 6),
+                   (byzcfg, 3, 1 if quick else 8)]
     p.scenarios = ['lock_unlock', 'relock_and_pol_proposal', 'locked_without_proposal', 'stale_polka_must_not_unlock']
     return p
 
